@@ -1,11 +1,12 @@
 (* Props/C12.v — GCP losses, gradients and their tensor-level evaluation are mutually consistent.
    T1 is stated over Gen/GenHandles.v (pyttb/gcp/handles.py as regenerated on this run).
    Only statements, `exact`, Print Assumptions. *)
-From Coq Require Import Reals Lra List.
+From Coq Require Import Reals Lra List ZArith.
 Set Warnings "-ambiguous-paths".   (* Coquelicot's Rbar coercion notice would otherwise end up in the Print Assumptions output *)
 From Coquelicot Require Import Coquelicot.
 From PV Require Import Np.NpR Gen.GenHandles Proofs.C12Handles Proofs.C12NegBinRefuted.
 From PV Require Import Base.Index Base.Sum Np.Array Model.Repr Model.C12Gcp Proofs.C12Tensor Proofs.C12TensorR.
+Import ListNotations.
 Local Open Scope R_scope.
 
 (* ---- T1: every gradient handle is the derivative of its loss handle on the loss's domain ---------- *)
@@ -175,3 +176,16 @@ Proof.
   - rewrite huber_grad_outer by (replace (5 - 3) with 2 by ring; rewrite Rabs_right by lra; lra).
     replace (5 - 3) with 2 by ring. rewrite sgnR_pos by lra. ring.
 Qed.
+
+(* T2 on a concrete non-symmetric instance over Z: 2x3 data, rank 2, loss (m - x)^2 with derivative 2(m - x):
+   the full unit-weight sample reproduces the exact evaluation, and the values are not trivial *)
+Example C12_example_tensor :
+  let As := [[[1; 2]; [0; -1]]; [[1; 0]; [2; 1]; [-1; 3]]]%Z in
+  let X := mkDense [2; 3]%nat [3; 0; -1; 2; 0; 5]%Z in
+  let f := fun x m => ((m - x) * (m - x))%Z in
+  let g := fun x m => (2 * (m - x))%Z in
+  eval_F 0%Z 1%Z Z.add Z.mul f (mkK [1; 1]%Z As) X None = 127%Z /\
+  est_F 0%Z 1%Z Z.add Z.mul Z.sub f As 2 (allsubs [2; 3]%nat) (ddata X) (repeat 1%Z 6) nil = 127%Z /\
+  eval_G 0%Z 1%Z Z.add Z.mul g (mkK [1; 1]%Z As) X None =
+  est_G 0%Z 1%Z Z.add Z.mul Z.sub g As 2 (allsubs [2; 3]%nat) (ddata X) (repeat 1%Z 6) nil [2; 3]%nat.
+Proof. vm_compute. repeat split; reflexivity. Qed.
